@@ -262,6 +262,7 @@ PropFailures(S, e, T, out, rec) ==
   \cup F("C04", "ReplyIdsArePositions", rec.rids = "")
   \cup F("C01", "ReplyIdsArePositions", rec.rids = "")
   \cup F("C14", "PublicViewMatchesState", rec.view = "")
+  \cup F("C17", "LookupSoundWhileLoading", rec.lkload = "")
   \cup F("C17", "LookupSound",
          \A k \in DOMAIN rec.lookup :
             LET id == rec.lookup[k][1]  ans == rec.lookup[k][2] IN
